@@ -18,6 +18,6 @@ PROP = {
 META = {
     "design_ref": "DESIGN.md section 4, C07",
     "technique": "model-based stateful PBT (rapidcheck) + coverage-guided fuzzing (libFuzzer) of the same op-stream against a std::string FIFO reference model, under ASan/UBSan",
-    "level_text": "Generated operation histories on up to 4 Buffer variables (all public operations, boundary-biased sizes, all initial capacities) are compared after every step with a FIFO reference model (size and full content, fetch results, copy independence, moved-from/reset emptiness); ASan with exact-size source/destination blocks catches out-of-storage accesses. Exploration only: no counter-example among N generated histories.",
+    "level_text": "Generated operation histories on up to 4 Buffer variables (all public operations, boundary-biased sizes, all initial capacities) are compared after every step with a FIFO reference model (size and full content, fetch results, copy independence, moved-from/reset emptiness); ASan with exact-size source/destination blocks catches out-of-storage accesses. Exploration only: no counter-example among N generated histories. Later additions (seeding rounds): reservations that fail for lack of memory (array allocations >= 2 GiB fail through a replaced operator new[]; the buffer is used again and both ends of its advertised writable window are touched), a partial consume between writing into the reserved window and committing it, self copy/move assignment through aliases.",
     "level_note": "Trusted: the reference model (std::string per variable), ASan/UBSan instrumentation, the harness's clamp of over-committed hasWritten() to writableSize() as documented in the header. Sizes are bounded to 1 MiB per operation. memcpy(_, nullptr, 0) is not flagged.",
 }
